@@ -168,6 +168,16 @@ def run(tier, seed):
                     elif prior == "file":
                         open(base + "/dst/l", "w").write("usr")
                     before_l = os.path.lexists(base + "/dst/l")
+                    # what a dry run announces for the entry, vs Links.dry_link_event (and, by C08_dry_run_announces_link_events, vs the real run)
+                    rd_ = world.run_sy([base + "/src", base + "/dst", "--links", mode, "--json", "-j1", "--dry-run"], sc)
+                    kind_d = "none"
+                    for l in rd_["out"].split("\n"):
+                        if l.startswith("{"):
+                            ev = json.loads(l)
+                            if ev.get("path", "").endswith("/dst/l") and ev.get("type") in ("create", "update", "skip", "error"):
+                                kind_d = ev["type"]
+                    le_cases.append("LD %s %s 1:%s" % (mode, dinit, cw))
+                    le_obs.append(kind_d)
                     rr = world.run_sy([base + "/src", base + "/dst", "--links", mode, "--json", "-j1"], sc)
                     kind = "none"
                     for l in rr["out"].split("\n"):
@@ -282,7 +292,7 @@ def run(tier, seed):
         if o != m and ew.norm_events(o) != ew.norm_events(m):          # with several workers the events come in completion order
             diffs.append({"case": case, "impl": o, "model": m})
     diffs += link_diffs
-    res.cov["link_event_cases"] = 72
+    res.cov["link_event_cases"] = 108
     res.cov["non_utf8_name_failure_runs"] = bytes_name_failures
     res.cov["stale_directory_with_unlisted_content_runs"] = stale_hidden_runs
     res.cov["evaluations"] = len(cases) * 2 + 72
